@@ -151,7 +151,11 @@ TypeClasses(chk, env, T, codec) ==
      \cup on(codec = "oer" /\ chk = "GEN" /\ TypeHas(env, T, LAMBDA t : AdditionHas(env, t, LAMBDA u : u.k = "BITS")),
              "OerBitStringInAddition")
      \cup on(codec = "oer" /\ chk = "CC"
-             /\ TypeHas(env, T, LAMBDA t : AdditionHas(env, t, LAMBDA u : u.k = "SEQOF" /\ (u.sz.lb = u.sz.ub \/ Base(env, u.e).k \in {"ENUM", "CHOICE"}))),
+             /\ TypeHas(env, T, LAMBDA t : AdditionHas(env, t, LAMBDA u :
+                   \/ u.k = "SEQOF" /\ (u.sz.lb = u.sz.ub \/ Base(env, u.e).k \in {"ENUM", "CHOICE"})
+                   \* ... or an inline CHOICE with an alternative of variable size (its length needs a helper / a member path that is not emitted)
+                   \/ u.k = "CHOICE" /\ \E j \in 1..Len(u.root) :
+                         LET b == Base(env, u.root[j].t) IN b.k = "SEQOF" \/ (b.k = "OCTS" /\ b.sz.lb # b.sz.ub))),
              "OerAdditionLengthExpression")
      \cup on(codec = "oer" /\ chk \in {"ENC", "REENC", "SMALL"} /\ TypeHas(env, T, LAMBDA t : AdditionHas(env, t, LAMBDA u : u.k = "CHOICE")),
              "OerAdditionLengthNotActual")
